@@ -90,3 +90,18 @@ Definition px_steps2 : list pstep :=
 (* a state whose durable commit lies at the end of the file: committing a smaller tree and shrinking *)
 Definition px_mS : hdrm := mkHdrm false true false px_geom (px_lay 0 3) (ex_slot 2 5) ex_Qold.
 Definition px_stS : pst := mkPst (mkDsum (enc_hdr px_mS) 2048 false [(1536, 2)] true None) [] px_mS false true.
+
+(* ---- recovery runs ---- *)
+
+(* the summary of ex_img_god (only the god byte of the 1PC commit reached the disk): god byte 3 names slot 1,
+   recovery serves slot 0 (the newer valid one) *)
+Definition rx_hdr_god : bytes := ex_hdr (RECOVERY_REQUIRED + PRIMARY_BIT) ex_P ex_Qold.
+Definition rx_d_god : dsum := mkDsum rx_hdr_god 2048 false [(512, 2)] true None.
+(* full repair: recomputed region counts, no allocator state table, the repair commit re-publishes root 0 *)
+Definition rx_o_full : roracle := mkRo (px_lay 0 3) false (ex_slot 0 6).
+
+(* an image whose primary was written by a quick-repair (2PC) commit: god byte 6, slot 0 trusted; the stale
+   secondary (a complete 1PC commit whose god byte was lost, txid 6) is newer than the primary *)
+Definition rx_hdr_2pc : bytes := ex_hdr (RECOVERY_REQUIRED + TWO_PHASE_COMMIT) ex_P ex_Qnew.
+Definition rx_d_2pc : dsum := mkDsum rx_hdr_2pc 2048 false [(512, 2)] true None.
+Definition rx_o_quick : roracle := mkRo (px_lay 0 3) true (ex_slot 0 7).
